@@ -18,7 +18,9 @@ RULE = ('histories of duty cycles / add_* / find_* on a full in-process client (
         'registration time + driver timeout, each hit exactly, one below and one above, plus small steps and large jumps; the driver heartbeat is '
         'kept fresh, left to age, set to 0 or negative; the client heartbeat counter appears late, moves, is reclaimed, changes key or type; '
         'ON_ERROR events for known / unknown registrations; a malformed stream uses clock values up to 2^64-1 (u64 overflow: debug panic, release wrap) '
-        'and non-monotone clocks. A history is non-trivial when at least one reading is within 1 of a live threshold; distinct = distinct histories')
+        'and non-monotone clocks; a further stream of histories (own random stream) draws the client id beyond 32 bits (2^31-1, 2^31, 2^32+5, 2^40, 2^62+9 ...: the '
+        'driver\'s 64-bit correlation counter, written into the ring trailer by the harness) with the heartbeat counter usually present, and requests destinations through all four '
+        'entry points (add_destination / remove_destination / add_rcv_destination / remove_rcv_destination) some time after the last duty cycle. A history is non-trivial when at least one reading is within 1 of a live threshold; distinct = distinct histories')
 ASSUMPTIONS = [
     'one clock reading per operation (the harness sets the clock before each call); the conductor is driven from one thread, as the agent does',
     'no resource (publication, subscription, image) is ever registered in these histories: the managed-resource registry is empty (C12 covers it); '
@@ -43,6 +45,10 @@ def has_find_excl_hook():
     except OSError:
         return False
 KINDS = ['KPub', 'KExPub', 'KSub', 'KCounter', 'KDest']
+# add operations 4..7 = add_destination / remove_destination / add_rcv_destination / remove_rcv_destination: four entry points that each
+# register a pending destination request (model: Add KDest), all looked up with find_destination_response (Find kind 4)
+ADD_KINDS = KINDS + ['KDest', 'KDest', 'KDest']
+BIG_CIDS = [2**31, 2**31 - 1, 2**31 + 1, 2**32, 2**32 + 5, 2**32 - 1, 2**40, 2**40 + 2**31, 2**62 + 9, 0x1200000005]
 
 
 def mode_c(mode):
@@ -141,20 +147,23 @@ def _table(rng, cid, state):
     return t
 
 
-def gen_history(rng, malformed=False):
+def gen_history(rng, malformed=False, wide=False):
+    """wide: client ids beyond 32 bits (the driver's correlation counter is 64 bit) and all four destination entry points."""
     td = rng.choice([10000, 10000, 1000, 5000, 1, 0, 60000])
     inter_ns = rng.choice([5 * 10**9, 5 * 10**9, 10**10, 10**9 + 999999, 2 * 10**9 - 1, 999999, 10**6, 7 * 10**9])
     if rng.random() < 0.5:
         inter_ns = max(inter_ns, 10**10 * 50)         # never closes: keeps the rest of the history interesting
     t0 = rng.choice([0, 1, 1500, 10**6, 10**6, 1600000000000, 2**40])
     cid = rng.choice([0, 0, 1, 7, 40])
+    if wide:
+        cid = rng.choice(BIG_CIDS)
     if malformed:
         t0 = rng.choice([0, U64 - 1 - 20000, U64 - 1 - 400, 2**63 - 100, 2**62 - 600])
     sim = _Sim(td, inter_ns, t0, cid)
     xhook = has_find_excl_hook()
     ops = []
     n = rng.randrange(4, 41)
-    tstate = {'slot': None if rng.random() < 0.7 else rng.randrange(0, 4)}
+    tstate = {'slot': None if rng.random() < (0.3 if wide else 0.7) else rng.randrange(0, 4)}
     hb_mode = rng.choice(['fresh', 'fresh', 'aging', 'aging', 'zero', 'negative', 'mixed'])
     table = _table(rng, cid, tstate)
     for _ in range(n):
@@ -186,6 +195,8 @@ def gen_history(rng, malformed=False):
             if malformed:
                 now = min(now, U64 - 1)
             kind = rng.randrange(0, 5)
+            if wide and rng.random() < 0.5:
+                kind = rng.randrange(4, 8)
             ops.append(['A', kind, now])
             sim.now = max(sim.now, now)
             sim.regs.append((kind, sim.next_id, now))
@@ -196,6 +207,7 @@ def gen_history(rng, malformed=False):
                 now = min(now, U64 - 1)
             if sim.regs and rng.random() < 0.85:
                 kind, rid, _ = rng.choice(sim.regs)
+                kind = min(kind, 4)
                 fk = [0, 1, 2, 3, 4] if xhook else [0, 2, 3, 4]
                 if kind == 1 and not xhook:
                     kind = rng.choice(fk)   # find_exclusive_publication is not public: only through the hook
@@ -246,6 +258,24 @@ def scripted():
         ops = [['C', 2000, 2000, none, None], ['C', 2501 + d, 2501, hbt, None], ['C', 3002 + d, 3002, hbt, None],
                ['C', 3502 + 2 * d, 3502, hbt, None], ['C', 4100, 4100, none, None], ['C', 4700, 4700, hbt, None]]
         cases.append({'kind': 'run', 'cfg': [10000, 5000, 10**12, 2000, 9], 'ops': ops, 'near': True})
+    # --- destination requests (all four entry points) stamped at the call, not at the last duty cycle: cycle at 2000, requests at 6000,
+    # no answer; lookups at last-cycle + T + d (must all be not-ready) and at request + T + d (time-out exactly when d = 1)
+    for d in (-1, 0, 1):
+        ops = [['C', 2000, 2000, none, None], ['A', 4, 6000], ['A', 5, 6000], ['A', 6, 6000], ['A', 7, 6000], ['A', 0, 6000], ['A', 2, 6000], ['A', 3, 6000]]
+        ops += [['F', 4, i, 2000 + 10000 + 1 + d] for i in (1, 2, 3, 4)] + [['F', 0, 5, 12001 + d], ['F', 2, 6, 12001 + d], ['F', 3, 7, 12001 + d]]
+        ops += [['F', 4, i, 6000 + 10000 + d] for i in (1, 2, 3, 4)] + [['F', 0, 5, 16000 + d], ['F', 2, 6, 16000 + d], ['F', 3, 7, 16000 + d]]
+        cases.append({'kind': 'run', 'cfg': [10000, 5000, 10**12, 500, 0], 'ops': ops, 'near': True})
+    # --- client ids beyond 32 bits: the heartbeat counter (type 11, key = client id as i64) is found at the first keep-alive after it
+    # appears and refreshed at every keep-alive; a record whose key only agrees in the low 32 bits (or sign-extended) is another client's
+    for cid in (2**31, 2**32 + 5, 2**40, 2**31 - 1, 0x1200000005):
+        hbt = [z3, [1, 11, cid], z3, z3]
+        low = [z3, [1, 11, cid % 2**32], [1, 11, cid - 2**32], z3]      # truncated / wrapped look-alikes only
+        ops = [['C', 2000, 2000, none, None], ['C', 2501, 2501, hbt, None], ['C', 3002, 3002, hbt, None], ['C', 3502, 3502, hbt, None],
+               ['C', 3503, 3503, hbt, None], ['A', 6, 3600], ['F', 4, cid + 1, 3600], ['C', 4100, 4100, none, None], ['C', 4700, 4700, hbt, None]]
+        cases.append({'kind': 'run', 'cfg': [10000, 5000, 10**12, 2000, cid], 'ops': ops, 'near': True})
+        if cid >= 2**32:
+            ops = [['C', 2000, 2000, none, None], ['C', 2501, 2501, low, None], ['C', 3002, 3002, low, None], ['C', 3503, 3503, hbt, None], ['C', 4004, 4004, hbt, None]]
+            cases.append({'kind': 'run', 'cfg': [10000, 5000, 10**12, 2000, cid], 'ops': ops, 'near': True})
     return cases
 
 
@@ -256,6 +286,11 @@ def generate(rng, tier):
         cases.append(gen_history(rng))
     for _ in range(100 if not big else 600):
         cases.append(gen_history(rng, malformed=True))
+    # own random stream (the histories above stay what they were): 64-bit client ids, all four destination entry points
+    import random
+    rng2 = random.Random(rng.getrandbits(32) ^ 0xC11D)
+    for _ in range(200 if not big else 3000):
+        cases.append(gen_history(rng2, wide=True))
     return cases
 
 
@@ -291,7 +326,7 @@ def _ops(c):
             e = '(Some (%s, %s))' % (z(ev[0]), z(ev[1])) if ev else 'None'
             out.append('Cycle %s %s %s %s' % (z(now), z(hb), tb, e))
         elif o[0] == 'A':
-            out.append('Add %s %s' % (KINDS[o[1]], z(o[2])))
+            out.append('Add %s %s' % (ADD_KINDS[o[1]], z(o[2])))
         else:
             out.append('Find %s %s %s' % (KINDS[o[1]], z(o[2]), z(o[3])))
     return '[' + '; '.join(out) + ']'
